@@ -306,6 +306,17 @@ pub fn run(tier: &str) -> i32 {
         for base in ["0.6666666666", "0.70710678118654752", "0.3333333333333333333333", "0.0000000001", "0.000000000000000000001", "1.0000000000000", "0.4294967295", "0.4294967296", "0.9999999999", "0.99999999999999999999", "0.5000000000000000000000000000001", "0.1000000000", "0.00000000000000000000000000000000000000000001", "0.123456789012345678901234567890123456789"] {
             lits.push(format!(":{}", base));
         }
+        // literals a hair above / below the midpoint of two neighbouring f32 values: parsing through f64 first lands
+        // exactly on the midpoint and then rounds to even
+        for b in [0.5f32, 0.25, 0.1, 0.3, 0.7, 0.99999994, 0.0625, 0.33333334] {
+            let up = f32::from_bits(b.to_bits() + 1);
+            let mid = (b as f64 + up as f64) / 2.0;
+            let exact = format!("{:.70}", mid);
+            let exact = exact.trim_end_matches('0').to_string();
+            lits.push(format!(":{}1", exact));
+            lits.push(format!(":{}", &exact[..exact.len() - 1]));
+            lits.push(format!(":{}", exact));
+        }
         for digits in 5..=12usize {
             lits.push(format!(":0.{}", "7".repeat(digits)));
             lits.push(format!(":0.{}1", "0".repeat(digits)));
@@ -326,7 +337,7 @@ pub fn run(tier: &str) -> i32 {
                 }
             }
         }
-        rep.sub("long-weights", "30 weight literals of 5 to 45 fraction digits (values around u32::MAX/10^10, repeated digits, tiny values, 1.000...) behind one token of each shape", n, n, false, json!({"literals": lits.len()}));
+        rep.sub("long-weights", "54 weight literals of 5 to 70 fraction digits (values around u32::MAX/10^10, repeated digits, tiny values, 1.000..., and for eight f32 values the exact midpoint to the next float, a hair above it and a hair below it) behind one token of each shape", n, n, false, json!({"literals": lits.len()}));
     }
 
     // (d3) a list whose first tokens already cover all 1326 combos, followed by overriding tokens
